@@ -107,6 +107,9 @@ type Op struct {
 	Right bool   `json:"right"` // present the account's password
 	Via   string `json:"via"`   // "basic" | "payload"
 	Adv   Adv    `json:"adv"`
+	// Repeat > 1: the attempt is made that many times in a row at the same
+	// instant (a guessing burst; every wrong guess is a different password).
+	Repeat int `json:"repeat,omitempty"`
 }
 
 // Case is a configuration plus a history.
@@ -117,7 +120,7 @@ type Case struct {
 	Ops       []Op  `json:"ops"`
 }
 
-const maxOps = 40
+const maxOps = 30
 
 var baseNames = [3]string{"alice", "bob", "carol"}
 
@@ -143,11 +146,12 @@ func genAdv(t *rapid.T) Adv {
 
 func genOp(t *rapid.T) Op {
 	return Op{
-		User:  rapid.SampledFrom([]int{0, 0, 0, 1, 1, 2}).Draw(t, "user"),
-		Spell: rapid.SampledFrom([]int{0, 0, 0, 0, 1, 2}).Draw(t, "spell"),
-		Right: rapid.IntRange(0, 4).Draw(t, "right") == 0,
-		Via:   rapid.SampledFrom([]string{"basic", "basic", "payload"}).Draw(t, "via"),
-		Adv:   genAdv(t),
+		User:   rapid.SampledFrom([]int{0, 0, 0, 1, 1, 2}).Draw(t, "user"),
+		Spell:  rapid.SampledFrom([]int{0, 0, 0, 0, 1, 2}).Draw(t, "spell"),
+		Right:  rapid.IntRange(0, 4).Draw(t, "right") == 0,
+		Via:    rapid.SampledFrom([]string{"basic", "basic", "payload"}).Draw(t, "via"),
+		Adv:    genAdv(t),
+		Repeat: rapid.SampledFrom([]int{1, 1, 1, 1, 1, 1, 2, 2, 3, 4, 6}).Draw(t, "repeat"),
 	}
 }
 
@@ -178,6 +182,7 @@ type acct struct {
 	locks      int  // lockouts started in this history
 	atExpiry   bool // the pending lockout was started by a failure at the exact end instant of the previous one
 	afterClear bool // a success or prune cleared the record at least once
+	kept       bool // the pending lockout was started on a count carried over an expired lockout
 }
 
 var fresh = acct{until: -1}
@@ -207,6 +212,7 @@ func transitions(s acct, t int64, limit int, lockout int64, success bool) []step
 		n.lastFail = t
 		if n.count >= limit {
 			n.atExpiry = s.until >= 0 && t == s.until
+			n.kept = s.until >= 0
 			n.until = t + lockout
 			n.locks++
 		}
@@ -406,7 +412,7 @@ func validCase(c Case) string {
 		return "configuration outside the stated domain"
 	}
 	for _, o := range c.Ops {
-		if o.User < 0 || o.User > 2 || o.Spell < 0 || o.Spell > 2 || (o.Via != "basic" && o.Via != "payload") {
+		if o.Repeat < 0 || o.Repeat > 6 || o.User < 0 || o.User > 2 || o.Spell < 0 || o.Spell > 2 || (o.Via != "basic" && o.Via != "payload") {
 			return "operation outside the stated domain"
 		}
 		switch o.Adv.Kind {
@@ -495,6 +501,7 @@ func (f *fixture) execute(c Case, names [3]string, lockout int64) vkit.Outcome {
 	var trace []string
 	var now int64
 
+	attemptNo := 0
 	for i, op := range c.Ops {
 		prim := states[op.User][0]
 		var d int64
@@ -519,84 +526,106 @@ func (f *fixture) execute(c Case, names [3]string, lockout int64) vkit.Outcome {
 
 		exists := !(op.User == 2 && c.Ghost)
 		success := op.Right && exists
-		pass := wrongPassword(i)
-		if op.Right {
-			pass = rightPassword(op.User)
+		rep := op.Repeat
+		if rep < 1 {
+			rep = 1
 		}
+		for k := 0; k < rep; k++ {
+			attemptNo++
+			prim = states[op.User][0]
+			pass := wrongPassword(attemptNo)
+			if op.Right {
+				pass = rightPassword(op.User)
+			}
 
-		// what the statement allows
-		cands := append([]acct(nil), states[op.User]...)
-		for _, s := range states[op.User] {
-			if prunable(s, now, c.Limit, lockout) {
-				p := fresh
-				p.locks, p.afterClear = s.locks, true
-				cands = append(cands, p)
-				labels["idle gap > 2x lockout with failures on record (pruner may reset)"] = true
+			// what the statement allows
+			cands := append([]acct(nil), states[op.User]...)
+			for _, s := range states[op.User] {
+				if prunable(s, now, c.Limit, lockout) {
+					p := fresh
+					p.locks, p.afterClear = s.locks, true
+					cands = append(cands, p)
+					labels["idle gap > 2x lockout with failures on record (pruner may reset)"] = true
+				}
 			}
-		}
-		cands = dedup(cands)
-		var allowed []step
-		for _, s := range cands {
-			allowed = append(allowed, transitions(s, now, c.Limit, lockout, success)...)
-		}
+			cands = dedup(cands)
+			var allowed []step
+			for _, s := range cands {
+				allowed = append(allowed, transitions(s, now, c.Limit, lockout, success)...)
+			}
 
-		obs := f.attempt(spell(names[op.User], op.Spell), pass, op.Via)
-		if el := int64(time.Since(start)); el != now {
-			return vkit.Outcome{Inconclusive: "a request consumed virtual time"}
-		}
-		trace = append(trace, fmt.Sprintf("#%d t=%v %s/%s right=%v -> %s", i, time.Duration(now), baseNames[op.User], op.Via, op.Right, obs))
+			obs := f.attempt(spell(names[op.User], op.Spell), pass, op.Via)
+			if el := int64(time.Since(start)); el != now {
+				return vkit.Outcome{Inconclusive: "a request consumed virtual time"}
+			}
+			trace = append(trace, fmt.Sprintf("#%d.%d t=%v %s/%s right=%v -> %s", i, k, time.Duration(now), baseNames[op.User], op.Via, op.Right, obs))
+			if len(trace) > 60 {
+				trace = append([]string{"..."}, trace[len(trace)-40:]...)
+			}
 
-		var next []acct
-		for _, s := range allowed {
-			if s.obs == obs {
-				next = append(next, s.next)
+			var next []acct
+			for _, s := range allowed {
+				if s.obs == obs {
+					next = append(next, s.next)
+				}
 			}
-		}
-		next = dedup(next)
+			next = dedup(next)
 
-		// classification (primary state = the deterministic reading)
-		lockedNow := c.Limit > 0 && prim.until >= 0 && now < prim.until
-		if prim.until >= 0 && c.Limit > 0 {
-			switch now - prim.until {
-			case -1:
-				labels["attempt 1ns before the deadline"] = true
-			case 0:
-				labels["attempt exactly at the deadline"] = true
-			case 1:
-				labels["attempt 1ns after the deadline"] = true
+			// classification (primary state = the deterministic reading)
+			lockedNow := c.Limit > 0 && prim.until >= 0 && now < prim.until
+			if prim.until >= 0 && c.Limit > 0 {
+				switch now - prim.until {
+				case -1:
+					labels["attempt 1ns before the deadline"] = true
+				case 0:
+					labels["attempt exactly at the deadline"] = true
+				case 1:
+					labels["attempt 1ns after the deadline"] = true
+				}
 			}
-		}
-		if lockedNow {
-			if op.Right && exists {
-				labels["right password presented while locked"] = true
+			if lockedNow {
+				if op.Right && exists {
+					labels["right password presented while locked"] = true
+				}
+				if op.Spell != 0 {
+					labels["other spelling of the name presented while locked"] = true
+				}
+				if op.Via == "payload" {
+					labels["payload credentials presented while locked"] = true
+				}
+				if prim.locks >= 2 && obs == "refused" {
+					relockObserved = true
+					if prim.kept {
+						labels["re-lock by failure(s) on a kept count (no success since the first lockout)"] = true
+					} else {
+						labels["second lockout after the count was cleared"] = true
+					}
+				}
 			}
-			if op.Spell != 0 {
-				labels["other spelling of the name presented while locked"] = true
+			for u := 0; u < 3; u++ {
+				if u != op.User && c.Limit > 0 && states[u][0].until >= 0 && now < states[u][0].until && obs != "refused" {
+					labels["another account is checked while one is locked"] = true
+				}
 			}
-			if prim.locks >= 2 && obs == "refused" {
-				relockObserved = true
+			if !lockedNow && success && prim.count > 0 {
+				labels["success clears a non-zero failure count"] = true
 			}
-		}
-		for u := 0; u < 3; u++ {
-			if u != op.User && c.Limit > 0 && states[u][0].until >= 0 && now < states[u][0].until && obs != "refused" {
-				labels["another account is checked while one is locked"] = true
+			if !lockedNow && obs == "denied" && c.Limit > 1 && prim.afterClear && prim.count+1 < c.Limit {
+				labels["failure below the limit after a cleared count stays unlocked"] = true
 			}
-		}
-		if !lockedNow && success && prim.count > 0 {
-			labels["success clears a non-zero failure count"] = true
-		}
 
-		if len(next) == 0 {
-			return vkit.Outcome{
-				Labels: []string{"limit=" + strconv.Itoa(c.Limit)},
-				Fail: &vkit.Failure{
-					Sig: signature(c, prim, now, obs, allowed),
-					Observed: fmt.Sprintf("limit=%d lockout=%v; attempt #%d on %q at t=%v (right password: %v, account exists: %v, via %s) observed %q; history: %s",
-						c.Limit, time.Duration(lockout), i, baseNames[op.User], time.Duration(now), op.Right, exists, op.Via, obs, strings.Join(trace, "; ")),
-					Expected: fmt.Sprintf("%s (model: %d consecutive failures, lockout deadline %s)", obsList(allowed), prim.count, deadlineText(prim)),
-				}}
+			if len(next) == 0 {
+				return vkit.Outcome{
+					Labels: []string{"limit=" + strconv.Itoa(c.Limit)},
+					Fail: &vkit.Failure{
+						Sig: signature(c, prim, now, obs, allowed),
+						Observed: fmt.Sprintf("limit=%d lockout=%v; attempt #%d.%d on %q at t=%v (right password: %v, account exists: %v, via %s) observed %q; history: %s",
+							c.Limit, time.Duration(lockout), i, k, baseNames[op.User], time.Duration(now), op.Right, exists, op.Via, obs, strings.Join(trace, "; ")),
+						Expected: fmt.Sprintf("%s (model: %d consecutive failures, lockout deadline %s)", obsList(allowed), prim.count, deadlineText(prim)),
+					}}
+			}
+			states[op.User] = next
 		}
-		states[op.User] = next
 	}
 
 	out := vkit.Outcome{NonTrivial: relockObserved}
@@ -698,7 +727,7 @@ func TestC24(t *testing.T) {
 	vkit.Run(t, vkit.Spec[Case]{
 		ID:    "C24",
 		Level: "exploration",
-		Rule: "histories of 1..40 login attempts (3 names incl. case spellings and optionally a name without account; right/wrong password; Basic header or logon payload; " +
+		Rule: "histories of 1..30 steps of 1..6 login attempts (3 names incl. case spellings and optionally a name without account; right/wrong password; Basic header or logon payload; " +
 			"clock advance: 0, small, fractions/multiples of the lockout +-1ns, aimed at the pending deadline +-1ns, arbitrary up to 3h) with maxattempts 0..6 and lockout 1s..1h, " +
 			"through router.ServeHTTP inside a synctest bubble, against a set-valued model of the statement. " +
 			"Non-trivial: on some account a lockout expired, further failure(s) started a second lockout, and an attempt was refused during it; distinct by history.",
